@@ -78,6 +78,9 @@ Data makeData(const Problem & pb, int p)
   VecD dd(p); for (int k = 0; k < p; ++k) {dd(k) = r.uniform(0.5, 2);}
   d.A = u * dd.asDiagonal() * v.transpose();
   if (r.chance(0.25)) {d.A = MatD::Identity(p, p);}   // a pure re-centring preconditioner: x = x0 + b
+  if (r.chance(0.4)) {d.A *= r.logUniform(1e-4, 1e4);}  // preconditioners rescale: A is well conditioned but not of unit size
+  // some weights exactly zero (rows switched off), never so many that fewer than p + 2 rows remain
+  if (r.chance(0.3)) {int z = (int)r.range(1, std::max(1, (m - p - 2) / 3)); for (int k = 0; k < z && m - p - 2 > 0; ++k) {d.W((long)r.below((uint64_t)m)) = 0;}}
   d.b.resize(p); for (int k = 0; k < p; ++k) {d.b(k) = r.uniform(-3, 3);}
   return d;
 }
@@ -158,7 +161,7 @@ Outcome runHistory(const Plan & pl, Ctx & c)
     const LS & cls = *ls;
     Mat J = cls.getJ().topRows(m); Vec Y = cls.getY().head(m); Vec W = cls.getW().head(m);
     Mat A = d.A.template cast<T>(); Vec b = d.b.template cast<T>();
-    if (!J.allFinite() || !Y.allFinite() || (pb.path == 2 && (!W.allFinite() || W.minCoeff() <= 0))) {SIM_COUNT("op.skipped_non_finite_leftover_prefix"); prevM = m; prevRows = (int)cls.getJ().rows(); continue;}
+    if (!J.allFinite() || !Y.allFinite() || (pb.path == 2 && (!W.allFinite() || W.minCoeff() < 0))) {SIM_COUNT("op.skipped_non_finite_leftover_prefix"); prevM = m; prevRows = (int)cls.getJ().rows(); continue;}
     // singular values of the problem actually solved (the prefix of an earlier matrix has its own conditioning)
     double sigmaMax, sigmaMin;
     {
@@ -232,8 +235,9 @@ Outcome runHistory(const Plan & pl, Ctx & c)
       VecL res = Jl.transpose() * (Jl * x0 - Yl);
       long double sMax = sigmaMax;
       // + the rounding of the affine map itself: x = A x0 + b is rounded at the magnitude of |x| and |b|, and
-      // recovering x0 = A^-1 (x - b) carries that absolute error (|A^-1| <= 2 by construction)
-      long double affine = 100.0L * Eps<T>::v * 2.0L * ((long double)x.norm() + (long double)curB.norm()) * sMax * sMax;
+      // recovering x0 = A^-1 (x - b) carries that absolute error times |A^-1| (A has condition <= 4 and any scale)
+      long double invA = 1.0L / std::max<long double>(1e-300L, (long double)Eigen::JacobiSVD<MatD>(curA.template cast<double>()).singularValues()(p - 1));
+      long double affine = 100.0L * Eps<T>::v * invA * ((long double)x.norm() + (long double)curB.norm()) * sMax * sMax;
       long double bound = (long double)roundoff * (sMax * sMax * x0.norm() + sMax * Yl.norm()) + affine + 1e-300L;
       if (getenv("C07_STATS") && res.norm() > 0.1 * bound) {fprintf(stderr, "STAT res ratio=%.3Lg cond=%.3g m=%d p=%d float=%d noise=%g path=%d\n", 100 * res.norm() / bound, condNow, m, p, (int)pl.isFloat, pb.noise, pb.path);}
       if (!(res.norm() <= bound)) {
@@ -256,6 +260,26 @@ Outcome runHistory(const Plan & pl, Ctx & c)
         return Outcome::fail("cholesky-svd-disagree", fmt("problem #%zu (m=%d, p=%d, cond %.3g, scale %.3g%s): %s and the other path differ by %.3g "
                  "relative (rounding allowance %.3g)", no, m, p, condNow, pb.scale, pl.isFloat ? ", float" : "", pathName[pb.path], diff / (ref + 1e-300),
                  20 * roundoff));
+      }
+    }
+    // ---- after a weighted solve the buffers hold the weighted rows: solving them again (no setDataSize, nothing
+    // rewritten) is a problem of the same size whose rows are exactly those
+    if (pb.resolve && pb.path == 2) {
+      const LS & k2 = *ls; Mat J2 = k2.getJ().topRows(m); Vec Y2 = k2.getY().head(m);
+      Eigen::JacobiSVD<MatD> sv(J2.template cast<double>());
+      double c2 = sv.singularValues()(p - 1) > 0 ? sv.singularValues()(0) / sv.singularValues()(p - 1) : INFINITY;
+      if (J2.allFinite() && Y2.allFinite() && c2 <= (pl.isFloat ? 1.05e3 : 1.05e6)) {
+        int path2 = (int)(no & 1);
+        Vec x2 = solve(*ls, path2);
+        LS t((size_t)p); t.setDataSize((size_t)m); t.getJ().topRows(m) = J2; t.getY().head(m) = Y2; t.setPreconditionner(curA, curB);
+        Vec xt = solve(t, path2);
+        SIM_PROBE("unweighted_solve_of_the_buffers_right_after_a_weighted_solve");
+        double ro2 = 100.0 * Eps<T>::v * c2 * c2;
+        double diff = (double)(x2 - xt).norm(), ref = std::max((double)x2.norm(), (double)xt.norm());
+        if (!(diff <= ro2 * ref + 1e-300) || !x2.allFinite()) {
+          return Outcome::fail("differs-from-fresh-solver", fmt("problem #%zu: %s of the %d rows the buffers hold right after weightedEstimate() differs from a fresh solver's by %.3g relative "
+                   "(rounding allowance %.3g)", no, pathName[path2], m, diff / (ref + 1e-300), ro2));
+        }
       }
     }
     // ---- solving the same data again with the other un-weighted path: state carried from one estimate to the next
@@ -425,7 +449,7 @@ struct PropC07
   {
     return {"grow_reallocates_buffers", "shrink_leaves_stale_rows", "same_size_as_buffers", "smaller_problem_after_larger", "grow_within_existing_buffers",
       "preconditioner_carried_over_from_earlier_problem", "default_constructed_then_setEstimateSize", "problem_is_prefix_of_previous_buffers_no_write",
-      "problem_written_through_references_kept_from_start", "only_Y_rewritten", "only_J_rewritten", "second_solve_on_same_data_other_path", "small_scale_problem", "large_scale_problem", "ill_conditioned_problem", "square_problem"};
+      "problem_written_through_references_kept_from_start", "only_Y_rewritten", "only_J_rewritten", "second_solve_on_same_data_other_path", "unweighted_solve_of_the_buffers_right_after_a_weighted_solve", "small_scale_problem", "large_scale_problem", "ill_conditioned_problem", "square_problem"};
   }
   Json describe() const
   {
